@@ -96,3 +96,54 @@ Theorem C14_break_inside_ifok_example :
   mout t_break_in_ifok c_ifok = Some (B "az"%string, None) /\ rout t_break_in_ifok c_ifok = (B "az"%string, SNone).
 Proof. exact break_in_ifok_agrees. Qed.
 Print Assumptions C14_break_inside_ifok_example.
+
+(* ---- for-else hands control on (Proofs/SpecFacts.v) ---- *)
+From DT Require Import Proofs.SpecFacts.
+
+Theorem C14_run_else_hands_on : forall elsef saved e acc o e1 s,
+  elsef e = (o, e1, s) -> s <> SNone -> run_else elsef true saved e acc 0 = (acc ++ o, e1, s).
+Proof. exact run_else_hands_on. Qed.
+Print Assumptions C14_run_else_hands_on.
+
+Theorem C14_cloop_no_trip_hands_on : forall bodyf elsef saved sep var cop step limv fuel e acc cur o e1 s,
+  cloop_allows cop cur limv = Some false ->
+  elsef (loop_done e 0) = (o, e1, s) -> s <> SNone ->
+  cloop_ref bodyf elsef true saved sep var cop step limv fuel e acc 0 cur =
+  (acc ++ o, set_ebrk (Z.max (e_brk e1) saved) e1, s).
+Proof. exact cloop_no_trip_hands_on. Qed.
+Print Assumptions C14_cloop_no_trip_hands_on.
+
+Theorem C14_rloop_no_element_hands_on : forall bodyf elsef saved sep key val e acc o e1 s,
+  elsef (loop_done e 0) = (o, e1, s) -> s <> SNone ->
+  rloop_ref bodyf elsef true saved sep key val [] e acc 0 0 = (acc ++ o, set_ebrk (Z.max (e_brk e1) saved) e1, s).
+Proof. exact rloop_no_element_hands_on. Qed.
+Print Assumptions C14_rloop_no_element_hands_on.
+
+(* the loop items *)
+Theorem C14_counter_loop_else_signal :
+  forall flits rlookup budget rinc var init lim il ll cop step sep body els e v0 limv o e1 s,
+    bound_of (set_ebrk 0 e) il init = inl (Some v0) -> bound_of (set_ebrk 0 e) ll lim = inl (Some limv) ->
+    cloop_allows cop v0 limv = Some false ->
+    top_with (ref_eval flits rlookup budget rinc) els (set_ebrk 0 e) [] = (o, e1, s) -> s <> SNone ->
+    ref_eval flits rlookup budget rinc (ACLoop var init lim il ll cop step sep body els true) e =
+    (o, set_ebrk (Z.max (e_brk e1) (e_brk e)) e1, s).
+Proof. exact counter_loop_else_signal. Qed.
+Print Assumptions C14_counter_loop_else_signal.
+
+Theorem C14_range_loop_else_signal :
+  forall flits rlookup budget rinc key val src sep body els e k rest o e1 s,
+    split_dot src = k :: rest -> env_find k (ev e) = None ->
+    top_with (ref_eval flits rlookup budget rinc) els (set_ebrk 0 e) [] = (o, e1, s) -> s <> SNone ->
+    ref_eval flits rlookup budget rinc (ARLoop key val src sep body els true) e =
+    (o, set_ebrk (Z.max (e_brk e1) (e_brk e)) e1, s).
+Proof. exact range_loop_else_signal. Qed.
+Print Assumptions C14_range_loop_else_signal.
+
+Example C14_for_else_signal_example :
+  ref_eval [] (fun _ => None) 10 (fun _ _ => None)
+           (ACLoop (Sb "i"%string) (Sb "0"%string) (Sb "0"%string) true true OpLt OpInc [] [] [AText (Sb "x"%string); ABreak false 2 false no_cond; AText (Sb "y"%string)] true)
+           e_loop = (Sb "x"%string, set_ebrk 2 e_loop, SBrk) /\
+  ref_eval [] (fun _ => None) 10 (fun _ _ => None)
+           (ARLoop [] (Sb "v"%string) (Sb "nothing"%string) [] [] [AExit] true) e_loop = ([], e_loop, SExit) /\
+  cloop_allows OpLt 0 0 = Some false.
+Proof. exact for_else_signal_example. Qed.
